@@ -5,7 +5,7 @@ import ast
 from .. import ordtype as O
 from .. import paths, state
 from ..loader import AnalysisError, norm_stmt
-from ..small import FoldError, fold
+from ..small import FoldError, fold, elementwise_stores
 from ..state import Edge as E
 
 BASE = "covmodel/base.py"
@@ -299,10 +299,11 @@ def no_cached_derived(ctx, rule="R14.4"):
         ctx.check(rets == [txt], rule, BASE + "::CovModel.%s" % name, "%s = %s" % (name, txt), "form:" + name)
     # len_scale_vec
     g = cm.getters["len_scale_vec"]
-    st = [norm_stmt(s) for s in ast.walk(g) if isinstance(s, ast.Assign)]
-    ok = "res[0] = self.len_scale" in st and "res[i] = self.len_scale * self.anis[i - 1]" in st
-    loops = [s for s in g.body if isinstance(s, ast.For)]
-    ok = ok and len(loops) == 1 and ast.unparse(loops[0].iter) in ("range(1, self._dim)", "range(1, self.dim)")
+    fills = elementwise_stores(g, "res", {"self.anis", "self._anis"})
+    ok = (fills in ([("0", "0", "self.len_scale"), ("1", "self._dim", "self.anis[i - 1] * self.len_scale")],
+                    [("0", "0", "self.len_scale"), ("1", "self.dim", "self.anis[i - 1] * self.len_scale")],
+                    [("0", "0", "self.len_scale"), ("1", None, "self.anis[i - 1] * self.len_scale")])
+          and any(norm_stmt(s_) in ("res = np.zeros(self.dim, dtype=np.double)", "res = np.empty(self.dim, dtype=np.double)") for s_ in g.body))
     ctx.check(ok, rule, BASE + "::CovModel.len_scale_vec", "per-axis scale i = len_scale * anis[i-1] for i = 1..dim-1", "lsv")
     # the cache `_integral_scale` is only read right after being written in the same function
     for c in prog.subclasses(cm, strict=False):
